@@ -16,6 +16,9 @@ META = {
         'the wrappers, and the dispatch-time callables of cell.py/ranges.py - '
         'writes in place to an object it did not create (flow-sensitive alias '
         'analysis, interprocedural summaries), outside a reasoned table; '
+        '(self) the sub-dispatchers ExcelModel.compile cuts out of the model '
+        'are installed under their own sh.SELF before they run, so nothing an '
+        'earlier calculate() left in the model reaches a compiled function; '
         '(cache) every Ranges method that changes ranges/values resets the '
         'cached value, and no code outside the class writes them on a shared '
         'object; (paths) finish() and from_dict() run the same post-processing; '
@@ -207,14 +210,47 @@ def rule_nomut(ctx, prop='C07', rule='C07.nomut', only=None, floor=150):
             if (f.fq, prm) in REASONED:
                 targets, premise, why = REASONED[(f.fq, prm)]
                 ws = [x for x in s.writes if prm in x.params]
-                if all(_shape_text(f, x.target) in targets and x.fi is f
-                       for x in ws) and (premise is None or premise(ctx, f)):
+                # the reasoned write itself, in f or in a private helper f
+                # delegates that part to
+                from ..util import with_helpers
+                near = with_helpers(ctx, f)
+                def reasoned(x, depth=0):
+                    if x.fi not in near:
+                        return False
+                    if x.kind == 'call' and isinstance(x.node, ast.Call) \
+                            and depth < 2:
+                        # the write happens in a callee: it must be one of
+                        # those helpers, and what *it* writes must have the
+                        # reasoned shape
+                        gs = [g for g, prec in ctx.effects._callee_infos(
+                            x.fi, x.node)[0] if prec == 'exact']
+                        def bound(g):
+                            # callee parameters that receive `prm`
+                            m_ = ctx.effects._bind_args(
+                                g, x.node, ctx.effects._bound_self(
+                                    x.fi, x.node, g))
+                            out_ = set()
+                            for k_, exprs in m_.items():
+                                for e_ in exprs:
+                                    e_ = e_[1] if isinstance(e_, tuple) else e_
+                                    if any(isinstance(z, ast.Name) and
+                                           z.id == prm for z in ast.walk(e_)):
+                                        out_.add(k_)
+                            return out_
+                        return bool(gs) and all(
+                            g in near and all(
+                                reasoned(y, depth + 1)
+                                for y in ctx.effects.summ[g.fq].writes
+                                if set(y.params) & bound(g))
+                            for g in gs)
+                    return _shape_text(x.fi, x.target) in targets
+                if all(reasoned(x) for x in ws) and (
+                        premise is None or premise(ctx, f)):
                     rr.ok('%s writes `%s` through `%s`: reasoned exception '
                           '(%s)' % (f.qualname, w.target, prm, why),
                           '%s:%s' % (w.fi.module.rel, w.lineno))
                     continue
-                w = [x for x in ws if _shape_text(f, x.target) not in targets
-                     or x.fi is not f][:1] or [w]
+                w = [x for x in ws if not reasoned(x)][:1] or [w]
                 w = w[0]
             bad.append((prm, w))
         if s.mutates:
@@ -455,6 +491,7 @@ def run(ctx):
     S = ctx.soft
     from .modelstate import rule_history
     from .c03 import rule_pair
+    from .c08 import rule_self as _rule_self
     # overriding a range or a name reaches the underlying cells through the
     # assemblers' positional protocols: same rule as C03.pair
     pr = S(rule_pair, ctx)
@@ -470,4 +507,5 @@ def run(ctx):
         o.rule = 'C07.pair'
     pr.instances, pr.floor = max(1, len(pr.obligations)), 1
     return [S(rule_nomut, ctx), S(rule_cache, ctx), S(rule_paths, ctx), S(rule_names, ctx),
-            S(rule_history, ctx, 'C07', 'C07.history'), pr]
+            S(rule_history, ctx, 'C07', 'C07.history'), pr,
+            S(_rule_self, ctx, 'C07', 'C07.self')]
